@@ -145,6 +145,7 @@ type Exec struct {
 	allocHere  map[string]bool // ref symbols introduced by allocations of this activation
 	recBusy map[string]bool
 	exitHits map[string]int
+	atCallSkipped map[string]bool
 	inferN, inferQueries int
 	inferredNames []string
 }
